@@ -70,6 +70,7 @@ let parse_input (input : string) : coq_Z * bool * op list =
         if String.length w > 3 && String.sub w 0 3 = "mt=" then mt := int_of_string (String.sub w 3 (String.length w - 3))
         else if w = "mode=p" then prod := true
         else if w = "mode=s" then prod := false
+        else if String.length w = 4 && String.sub w 0 3 = "up=" && w.[3] >= '0' && w.[3] <= '5' then ()  (* url profile: which strings the ids stand for - harness only *)
         else raise (Malformed "head")) (words head);
     if !mt < 1 then raise (Malformed "head");
     (z_of_int !mt, !prod, Stdlib.List.map parse_op ops)
@@ -122,6 +123,7 @@ let parse_view s : view =
   if Str.string_match re_view s 0 then begin
     let e = Str.matched_group 1 s and a = Str.matched_group 2 s and st = Str.matched_group 3 s and t = Str.matched_group 4 s in
     (((z_of_string e, a = "1"), parse_status st), z_of_string t) end
+  else if s = "200:wrong-url" then raise (Malformed "wrong-url")
   else raise (Malformed "view")
 let parse_resp s =
   if s = "-" then RespNone else if s = "200" then RespOK else if s = "rej" then RespRejected
@@ -193,6 +195,8 @@ let spec input obs =
            (String.concat "," (Stdlib.List.map (fun (n, c) -> dec_of_z n ^ ":" ^ class_name c) fs)))
     with
     | Malformed ("header-name" | "header-value" as w) -> "FAIL auth-header unrecognised " ^ w
+    | Malformed "post-url" -> "FAIL post-wrong-url a POST went to an address that is none of the registered url strings"
+    | Malformed "wrong-url" -> "FAIL url-not-verbatim the endpoint answered with a webhook whose url is not the string the client sent"
     | Malformed w -> "FAIL malformed-observable " ^ w
     | Post_format w -> "FAIL post-format " ^ w
 
